@@ -373,6 +373,9 @@ func VerifHolding() {
 		vrt.Assert("C17.holding-status-matches-outcome", executed == status[i])
 		if status[i] > 0 {
 			vrt.Assert("C07.credited-amount-is-floor-at-this-blocks-rates", uint64(vrtToAmount(tx, hv.hash, 0)) == yield[i])
+			// read as C17: the history row of an executed conversion records the amount that was credited
+			// (for a PEG request served in part: the granted yield, not the request)
+			vrt.Assert("C17.executed-conversion-records-the-credited-amount", uint64(vrtToAmount(tx, hv.hash, 0)) == yield[i])
 			vrt.Assert("C16.yield-never-above-request", hv.dst != fat2.PTickerPEG || c >= specV20 || yield[i] <= specBank)
 		}
 		if c >= specV20 && hv.dst == fat2.PTickerPEG && hv.height >= last {
